@@ -29,7 +29,7 @@ fn silence_panics() {
 fn plan_c17(tier: Tier) -> (Plan, Extra) {
     let workers = batch::workers_default();
     let plan = match tier {
-        Tier::Quick => Plan { runs: 400_000, budget_s: 60.0, selftest_runs: 2000, workers },
+        Tier::Quick => Plan { runs: 400_000, budget_s: 150.0, selftest_runs: 2000, workers },
         Tier::Thorough => Plan { runs: 40_000_000, budget_s: 1500.0, selftest_runs: 20000, workers },
     };
     let mut coverage = Map::new();
